@@ -991,7 +991,9 @@ class HierarchicalMachine(Machine):
         try:
             with self():
                 res = self._trigger_event_nested(event_data, trigger, None)
-            event_data.result = self._check_event_result(res, event_data.model, trigger)
+                # still at the root scope: an event triggered from a callback must not be judged in the scope of the
+                # event that is being processed (state and trigger look-ups are scope relative)
+                event_data.result = self._check_event_result(res, event_data.model, trigger)
         except BaseException as err:  # pylint: disable=broad-except; Exception will be handled elsewhere
             event_data.error = err
             if self.on_exception:
